@@ -2,7 +2,7 @@
     Property theorems only; each is closed by [exact] of a lemma of [Proofs/]. *)
 From Coq Require Import List ZArith Bool.
 From EDS Require Import Model.Objects Model.Default Model.ErsReconcile Model.EdsReconcile
-     Proofs.Lists Proofs.C16Proofs.
+     Model.PodSpec Proofs.Lists Proofs.C16Proofs Proofs.C16Ers.
 Import ListNotations.
 Open Scope Z_scope.
 
@@ -79,6 +79,16 @@ Print Assumptions C16_validate_rejects.
 Theorem C16_eds_reconcile_total : forall sn k, eds_sync sn <> Panic k.
 Proof. exact eds_sync_total. Qed.
 Print Assumptions C16_eds_reconcile_total.
+
+(** the replica-set sync returns a result or an error, never crashes - for EVERY snapshot (any parent spec: one that
+    is not recognised as defaulted ends the sync at once; a defaulted one has every pointer the strategies
+    dereference), every role, every choice of the runtime, every fault - provided the pod statuses are
+    kubelet-shaped ([pod_shape_ok]: a last state of a container carries Terminated; a pod reporting container
+    statuses has a start time).  Includes the repaired D15 (canary role without a canary strategy), D16, D1b, D1c. *)
+Theorem C16_ers_reconcile_total : forall sn ch,
+  forallb pod_shape_ok (sn_pods sn) = true -> forall k, ers_sync sn ch <> Panic k.
+Proof. exact ers_sync_no_panic. Qed.
+Print Assumptions C16_ers_reconcile_total.
 
 (** the defect D1a of the pinned tree, kept as a checked record *)
 Theorem C16_validate_panicked_before_fix :
